@@ -209,6 +209,7 @@ class DB:
         self.surface_species = {}
         self.named = {}            # name -> Rxn (log_k, delta_h, analytic)
         self.llnl = {}
+        self.gas_binary = {}       # (gas1, gas2) -> k_ij
         self.problems = []
         self.keywords_seen = []
         self._read()
@@ -261,6 +262,8 @@ class DB:
                     cur = self._named_line(ln, toks, cur, n)
                 elif block in ("LLNL_AQUEOUS_MODEL_PARAMETERS", "LLNL_AQUEOUS_MODEL"):
                     llnl_opt = self._llnl_line(toks, llnl_opt)
+                elif block == "GAS_BINARY_PARAMETERS" and len(toks) >= 3 and to_float(toks[2]) is not None:
+                    self.gas_binary[(toks[0], toks[1])] = to_float(toks[2])
             except Exception as e:           # noqa
                 self.problems.append("line %d (%s): %s: %r" % (n, block, e, ln[:80]))
                 if cur is not None:
